@@ -8,7 +8,11 @@
     use_enum_value   [yh_text_unwrap]: DeepHash always hashes the value.
         [leafR_enum_unwrap]: _diff replaces a member by its value exactly when the two TYPES differ
         (another class, or a plain value), and then compares WITHOUT the type check
-        ([dispatch false]); a None on either side is reported as a change.
+        ([dispatch false]) - stated for values that are not None (the None edge case of _diff
+        was changed by the /repo fix c9e614d).  [leafR_enum_none], [y_enum_none_agrees]: that edge
+        case as fixed - a None-valued member facing None: equal hashes, nothing reported.
+        [y_enum_transfer_none]: the transfer theorem with "neither None-valued" weakened to "not
+        exactly one of them None-valued".
         [y_enum_transfer]: hence for a member facing a plain value / a member of another class,
         neither being None-valued, the property holds iff it holds for the two VALUES compared by
         the comparer of the first one's type without type check.
@@ -132,15 +136,16 @@ Proof. cbn [yh_text]. rewrite enum_on. destruct v; reflexivity. Qed.
 Definition other_class (c : pystr) (b : atom) : bool :=
   match b with AEnum c' _ _ _ => negb (pystr_eqb c c') | _ => true end.
 
-(* _diff: a member facing a plain value or a member of ANOTHER class (the types differ) *)
+(* _diff: a member facing a plain value or a member of ANOTHER class (the types differ), neither side
+   None after unwrapping: the comparer of the first value's type, WITHOUT type check.
+   (Stated away from the None edge case of _diff on purpose: that branch was changed by the /repo fix
+   c9e614d - None facing None after unwrapping is no longer reported - and is described separately.) *)
 Lemma leafR_enum_unwrap c n o v b p1 p2 :
   o_excl F = [] -> o_nan F = false -> other_class c b = true ->
-  leafR udiff F (AEnum c n o v) b p1 p2 =
-    let a' := atom_of_e v in
-    let b' := unwrap F b in
-    if is_none a' || is_none b' then Ok (rep_atoms F KValue p1 p2 a' b') else dispatch udiff F false a' b' p1 p2.
+  is_none (atom_of_e v) = false -> is_none (unwrap F b) = false ->
+  leafR udiff F (AEnum c n o v) b p1 p2 = dispatch udiff F false (atom_of_e v) (unwrap F b) p1 p2.
 Proof.
-  intros Hx Hn Hc.
+  intros Hx Hn Hc Na Nb.
   assert (Ex : forall t, excluded F t = false) by (intros t; unfold excluded; rewrite Hx; reflexivity).
   assert (L : leafR udiff F (AEnum c n o v) b p1 p2 = leaf_core udiff F (AEnum c n o v) b p1 p2).
   { destruct b; try reflexivity. cbn [other_class] in Hc. apply negb_true_iff in Hc. cbn [leafR]. rewrite Hc. reflexivity. }
@@ -151,7 +156,7 @@ Proof.
   assert (T : ty_eqb (atom_ty (AEnum c n o v)) (atom_ty b) = false).
   { destruct b; try reflexivity. cbn [other_class] in Hc. apply negb_true_iff in Hc. cbn [atom_ty ty_eqb]. exact Hc. }
   rewrite T, enum_on, Hn. cbn [is_enum andb orb negb]. rewrite andb_false_r.
-  cbn [unwrap]. rewrite enum_on. reflexivity.
+  cbn [unwrap]. rewrite enum_on, Na, Nb. reflexivity.
 Qed.
 
 (* hence: for a member facing a plain value / a member of another class, neither side None-valued, the
@@ -163,11 +168,60 @@ Theorem y_enum_transfer (H : pystr -> pystr) c n o v b p1 p2 :
   ((yh_atom H F (AEnum c n o v) = yh_atom H F b <-> leafR udiff F (AEnum c n o v) b p1 p2 = Ok []) <->
    (yh_atom H F (atom_of_e v) = yh_atom H F (unwrap F b) <-> dispatch udiff F false (atom_of_e v) (unwrap F b) p1 p2 = Ok [])).
 Proof.
-  intros Hx Hn Hc Na Nb. rewrite (leafR_enum_unwrap c n o v b p1 p2 Hx Hn Hc). cbn zeta. rewrite Na, Nb. cbn [orb].
+  intros Hx Hn Hc Na Nb. rewrite (leafR_enum_unwrap c n o v b p1 p2 Hx Hn Hc Na Nb).
   unfold yh_atom. rewrite yh_text_unwrap.
   assert (E : yh_text F b = yh_text F (unwrap F b)).
   { destruct b; try reflexivity. cbn [unwrap]. rewrite enum_on. apply yh_text_unwrap. }
   rewrite E. tauto.
+Qed.
+
+(* the None edge case of _diff after unwrapping, as fixed in /repo c9e614d: a None-valued member facing
+   None (or a None-valued member of another class) is NOT reported - both are None - and the hashes are
+   equal: the property holds there without any guard *)
+Lemma leafR_enum_none c n o b p1 p2 :
+  o_excl F = [] -> o_nan F = false -> other_class c b = true -> is_none (unwrap F b) = true ->
+  leafR udiff F (AEnum c n o ENone) b p1 p2 = Ok [].
+Proof.
+  intros Hx Hn Hc Nb.
+  assert (Ex : forall t, excluded F t = false) by (intros t; unfold excluded; rewrite Hx; reflexivity).
+  assert (L : leafR udiff F (AEnum c n o ENone) b p1 p2 = leaf_core udiff F (AEnum c n o ENone) b p1 p2).
+  { destruct b; try reflexivity. cbn [other_class] in Hc. apply negb_true_iff in Hc. cbn [leafR]. rewrite Hc. reflexivity. }
+  rewrite L. unfold leaf_core.
+  assert (S : same_obj (AEnum c n o ENone) b = false).
+  { destruct b; try reflexivity. cbn [other_class] in Hc. apply negb_true_iff in Hc. cbn [same_obj]. rewrite Hc. reflexivity. }
+  rewrite S, !Ex. cbn [orb].
+  assert (T : ty_eqb (atom_ty (AEnum c n o ENone)) (atom_ty b) = false).
+  { destruct b; try reflexivity. cbn [other_class] in Hc. apply negb_true_iff in Hc. cbn [atom_ty ty_eqb]. exact Hc. }
+  rewrite T, enum_on, Hn. cbn [is_enum andb orb negb]. rewrite andb_false_r.
+  cbn [unwrap]. rewrite enum_on. cbn [atom_of_e is_none orb andb]. rewrite Nb. reflexivity.
+Qed.
+
+Lemma is_none_eq a : is_none a = true -> a = ANone.
+Proof. destruct a; try discriminate. reflexivity. Qed.
+
+Theorem y_enum_none_agrees (H : pystr -> pystr) c n o b p1 p2 :
+  o_excl F = [] -> o_nan F = false -> other_class c b = true -> is_none (unwrap F b) = true ->
+  yh_atom H F (AEnum c n o ENone) = yh_atom H F b /\ leafR udiff F (AEnum c n o ENone) b p1 p2 = Ok [].
+Proof.
+  intros Hx Hn Hc Nb. split; [|apply leafR_enum_none; assumption].
+  unfold yh_atom. rewrite yh_text_unwrap. f_equal.
+  assert (E : yh_text F b = yh_text F (unwrap F b)).
+  { destruct b; try reflexivity. cbn [unwrap]. rewrite enum_on. apply yh_text_unwrap. }
+  rewrite E, (is_none_eq _ Nb). reflexivity.
+Qed.
+
+(* the transfer theorem with the guard "neither None-valued" weakened to "not exactly one of them": *)
+Theorem y_enum_transfer_none (H : pystr -> pystr) c n o v b p1 p2 :
+  o_excl F = [] -> o_nan F = false -> other_class c b = true ->
+  is_none (atom_of_e v) = is_none (unwrap F b) ->
+  ((yh_atom H F (AEnum c n o v) = yh_atom H F b <-> leafR udiff F (AEnum c n o v) b p1 p2 = Ok []) <->
+   (if is_none (atom_of_e v) then True
+    else (yh_atom H F (atom_of_e v) = yh_atom H F (unwrap F b) <-> dispatch udiff F false (atom_of_e v) (unwrap F b) p1 p2 = Ok []))).
+Proof.
+  intros Hx Hn Hc En. destruct (is_none (atom_of_e v)) eqn:Na.
+  - assert (v = ENone) by (destruct v; try discriminate; reflexivity). subst v.
+    destruct (y_enum_none_agrees H c n o b p1 p2 Hx Hn Hc (eq_sym En)) as [A B]. rewrite A, B. tauto.
+  - apply y_enum_transfer; auto.
 Qed.
 
 End En.
